@@ -284,7 +284,11 @@ pub fn run_case(ctx: &mut Ctx, fam: &str, _k: u64, r: &mut Rng) {
             h.keep_gradient(*r.pick(&live));
             kind = "keep-gradient";
         } else if c < 85 {
-            h.clear(*r.pick(&live), r.chance(2, 3));
+            if r.chance(1, 3) {
+                h.install(*r.pick(&live), r);
+            } else {
+                h.clear(*r.pick(&live), r.chance(2, 3));
+            }
             kind = "clear";
         } else if c < 94 {
             // optimizer update over a random subset of the live leaves
